@@ -27,6 +27,7 @@ func init() {
 			{ID: "C15.R4", Min: 4, Doc: "ring construction constants: replica count 100; MD5 first two bytes, binary.BigEndian; key pieces; truth table of hashRing.Less against the lexicographic order (Position, Hostname, Instance)", Run: c15r4},
 			{ID: "C15.R6", Min: 1, Doc: "address splitting: an address with exactly two ':' is split into host:port (first two components joined by ':') and instance (third component); the ring key uses the host part before the first ':'", Run: c15r6},
 			{ID: "C15.R7", Min: 2, Doc: "the configured instance survives reconnects: the relay loop re-dials with the stored, instance-less Destination.Addr, so outside the constructor every store into Destination.Instance takes the instance of the same addrInstanceSplit call as the Addr stored with it, and is controlled by the edge on which the split address differs from the current Destination.Addr (a reconnect to the unchanged address must not touch it)", Run: c15r7},
+			{ID: "C15.R8", Min: 1, Doc: "ring order: every function that assigns ConsistentHasher.Ring sorts it with the library sort (sort.Sort / sort.Stable over hashRing, whose Less R4 checks) on every path before it returns — a hand-written merge or insertion is reported, its agreement with Carbon's (position, host, instance) order being a claim about values", Run: c15r8},
 			{ID: "C15.R5", Min: 2, Doc: "lookup: sort.Search over len(Ring) with predicate Ring[i].Position >= position, result % len(Ring), returns Ring[index].DestinationIndex; Dispatch indexes Dests() with it", Run: c15r5},
 		},
 	})
@@ -588,6 +589,42 @@ func c15r6(c *Check) {
 			}
 		}
 	})
+	// equivalent form: cut at the last ':' — pos := strings.LastIndexByte(addr, ':'); addr[:pos], addr[pos+1:]
+	var lastIdx *ssa.Call
+	allInstrs(fn, func(in ssa.Instruction) {
+		if call, ok := in.(*ssa.Call); ok {
+			switch calleeName(call.Common()) {
+			case "strings.LastIndexByte":
+				if k, ok := constInt(call.Call.Args[1]); ok && k == ':' && call.Call.Args[0] == ssa.Value(fn.Params[0]) {
+					lastIdx = call
+				}
+			case "strings.LastIndex":
+				if sep, _ := constString(call.Call.Args[1]); sep == ":" && call.Call.Args[0] == ssa.Value(fn.Params[0]) {
+					lastIdx = call
+				}
+			}
+		}
+	})
+	if lastIdx != nil && count2 {
+		head, tail := false, false
+		allInstrs(fn, func(in ssa.Instruction) {
+			sl, ok := in.(*ssa.Slice)
+			if !ok || sl.X != ssa.Value(fn.Params[0]) {
+				return
+			}
+			if sl.Low == nil && sl.High == ssa.Value(lastIdx) {
+				head = true
+			}
+			if bo, ok := sl.Low.(*ssa.BinOp); ok && sl.High == nil && bo.Op == token.ADD && bo.X == ssa.Value(lastIdx) {
+				if k, ok := constInt(bo.Y); ok && k == 1 {
+					tail = true
+				}
+			}
+		})
+		if head && tail {
+			split, join02, inst2 = true, true, true
+		}
+	}
 	c.Judge(count2 && split && join02 && inst2, "destination.addrInstanceSplit host:port:instance", c.AtFn(fn), "two ':' → (components[0:2] joined by ':', components[2])", "host:port:instance addresses are not split into (host:port, instance): the ring key or the dial address is wrong")
 }
 
@@ -677,5 +714,66 @@ func c15r7(c *Check) {
 	}
 	if n < 2 {
 		anchorFail("destination: %d stores into Destination.Instance found", n)
+	}
+}
+
+func c15r8(c *Check) {
+	ringF := c.P.Field("route", "ConsistentHasher", "Ring")
+	n := 0
+	for _, fn := range c.P.Funcs {
+		fn := fn
+		var stores []*ssa.Store
+		sortBlocks := map[*ssa.BasicBlock][]ssa.Instruction{}
+		allInstrs(fn, func(in ssa.Instruction) {
+			if st, ok := in.(*ssa.Store); ok {
+				if fa, ok := st.Addr.(*ssa.FieldAddr); ok && fieldOfAddr(fa) == ringF {
+					stores = append(stores, st)
+				}
+			}
+			if cc := callCommon(in); cc != nil {
+				switch calleeName(cc) {
+				case "sort.Sort", "sort.Stable":
+					if len(cc.Args) == 1 && derivedFromField(cc.Args[0], ringF) {
+						sortBlocks[in.Block()] = append(sortBlocks[in.Block()], in)
+					}
+				}
+			}
+		})
+		for _, st := range stores {
+			n++
+			// fresh empty ring needs no sort
+			if k, ok := st.Val.(*ssa.Const); ok && k.IsNil() {
+				c.Hold(FuncName(fn)+" Ring sorted after assignment", c.At(st), "empty ring")
+				continue
+			}
+			okAll := true
+			// same block: a sort after the store
+			sameBlockSort := false
+			for _, so := range sortBlocks[st.Block()] {
+				if instrDominates(st, so) {
+					sameBlockSort = true
+				}
+			}
+			if !sameBlockSort {
+				stop := map[*ssa.BasicBlock]bool{}
+				for b := range sortBlocks {
+					if b != st.Block() {
+						stop[b] = true
+					}
+				}
+				for b := range reachable(st.Block(), nil, stop) {
+					if stop[b] {
+						continue
+					}
+					if _, isRet := b.Instrs[len(b.Instrs)-1].(*ssa.Return); isRet {
+						okAll = false
+					}
+				}
+			}
+			c.Judge(okAll, FuncName(fn)+" Ring sorted after assignment", c.At(st), "sort.Sort(h.Ring) follows on every path", "the ring is assigned without being sorted by the library sort afterwards (hand-written merge/insert, or no sort): entries that collide on a position are not in Carbon's (position, host, instance) order, so keys on that arc go to a different destination than Carbon picks")
+		}
+	}
+	if n == 0 {
+		anchorFail("no store into ConsistentHasher.Ring")
 	}
 }
